@@ -164,6 +164,34 @@ Example ex_mask_plain :
 Proof. vm_compute. repeat split. Qed.
 
 (* ------------------------------------------------------------------ *)
+(* The strided slice in plain terms (Proofs/SliceFacts.v).  `py_positions` enumerates a slice with the closed-form
+   count (hi - lo + s - 1) / s; for every n, every bounds (negative, missing, overshooting) and every step this is
+   exactly the set of positions lo <= i < hi with s | (i - lo), in increasing order, where lo/hi are the bounds
+   wrapped once and clamped to [0, n]; a step <= 0 raises. *)
+From PF Require Import Proofs.SliceFacts.
+
+Theorem slice_positions_in_plain_terms : forall n a b s pos,
+  py_positions n (ISlice a b s) = Some pos ->
+  let lo := fst (slice_indices n a b) in
+  let hi := snd (slice_indices n a b) in
+  let st := Z.to_nat (match s with None => 1%Z | Some v => v end) in
+  0 < st /\ hi <= n
+  /\ (forall i, In i pos <-> (lo <= i < hi /\ (i - lo) mod st = 0))
+  /\ StronglySorted lt pos.
+Proof. exact slice_positions_spec. Qed.
+Print Assumptions slice_positions_in_plain_terms.
+
+Theorem slice_step_must_be_positive : forall n a b v, (v <= 0)%Z -> py_positions n (ISlice a b (Some v)) = None.
+Proof. exact slice_step_nonpositive. Qed.
+Print Assumptions slice_step_must_be_positive.
+
+Example ex_slice_plain :
+  py_positions 10 (ISlice (Some (-7)%Z) (Some 100%Z) (Some 3%Z)) = Some [3; 6; 9]
+  /\ py_positions 10 (ISlice (Some 8%Z) (Some 2%Z) None) = Some []
+  /\ py_positions 10 (ISlice None None (Some 0%Z)) = None.
+Proof. vm_compute. repeat split. Qed.
+
+(* ------------------------------------------------------------------ *)
 (* "The source is left unchanged" for the one object of the caller that the selection code writes next to: the index
    tensor.  Store model (Model/FrameStore.v) of _normalize_index's tensor branch -- clone, then the masked in-place
    += on the clone: the caller's tensor (any object that existed before) is never written, whatever it contains, and
